@@ -19,8 +19,13 @@ def validate_decoded(obj):
   if isinstance(obj, gfapy.Placeholder):
     pass
   elif isinstance(obj, list):
+    if len(obj) == 0:
+      raise gfapy.FormatError("the list of alignments is empty")
     for e in obj:
       e = gfapy.Alignment(e, version = "gfa1")
+      if isinstance(e, gfapy.Trace):
+        raise gfapy.TypeError(
+          "trace alignments are not allowed in GFA1")
       e.validate()
   else:
     raise gfapy.TypeError(
